@@ -65,11 +65,14 @@ impl State {
 
     fn get_aggregation_timestamp(&self) -> Option<u64> {
         match self.config.agg_mode {
-            AggregationMode::Conservative => {
+            // Counters and gauges are aggregated but are not sent with a timestamp.
+            AggregationMode::Conservative => None,
+            // Counters and gauges are aggregated and sent with a timestamp.
+            AggregationMode::Aggressive => {
                 SystemTime::now().duration_since(SystemTime::UNIX_EPOCH).ok().map(|d| d.as_secs())
             }
-            AggregationMode::Aggressive => None,
         }
+
     }
 
     /// Flushes all registered metrics to the given payload writer.
